@@ -96,7 +96,13 @@ func (p Proof) Prove(key string) error {
 		var passed bool
 	passend:
 		for j := range parents {
-			if parents[j].IsEmpty() {
+			if parents[j] == nil || parents[j].IsEmpty() {
+				continue
+			}
+
+			// NOTE at the first level, the node of the key should be matched
+			// with it's children; the sibling can not prove the key.
+			if i == 0 && parents[j].Key() != key {
 				continue
 			}
 
